@@ -435,3 +435,20 @@ def main_wrap(fn):
     except BuildError as e:
         print("BUILD-ERROR: %s" % e, flush=True)
         sys.exit(2)
+
+
+def corpus_files(limit=None, rng=None):
+    """module files shipped with the repository (test-dev data and the OpenMPT test cases)"""
+    base = os.path.join(REPO, "test-dev")
+    out = []
+    for d in ("data", "data/m", "openmpt/it", "openmpt/xm", "openmpt/s3m", "openmpt/mod"):
+        p = os.path.join(base, d)
+        if not os.path.isdir(p):
+            continue
+        for f in sorted(os.listdir(p)):
+            fp = os.path.join(p, f)
+            if os.path.isfile(fp) and not f.endswith((".data", ".c", ".txt", ".h")) and "README" not in f and "TODO" not in f and "\n" not in f:
+                out.append(fp)
+    if limit is not None and len(out) > limit and rng is not None:
+        out = sorted(rng.sample(out, limit))
+    return out
